@@ -96,6 +96,12 @@ pub trait Property: Sized + 'static {
         vec![]
     }
     fn generate(ctx: &mut Ctx<Self>);
+    /// Coverage-guided mode: decode a libFuzzer input into (sub-check name, case, non-trivial).
+    /// Decoders are written per property over `Bytes` (total: any byte string decodes or is
+    /// rejected with None); the default means the property has no fuzz target.
+    fn fuzz_decode(_data: &[u8]) -> Option<(&'static str, Self::Case, bool)> {
+        None
+    }
     fn selfcheck() -> Result<(), String> {
         Ok(())
     }
@@ -614,6 +620,208 @@ fn tmp_dir() -> PathBuf {
     d
 }
 
+// ------------------------------------------------------------------------------------------
+// coverage-guided mode
+
+/// Cursor over a libFuzzer input for the per-property decoders. Total: once the input is used
+/// up every draw returns 0, so bounded decoders always terminate.
+pub struct Bytes<'a> {
+    d: &'a [u8],
+    i: usize,
+}
+impl<'a> Bytes<'a> {
+    pub fn new(d: &'a [u8]) -> Self {
+        Bytes { d, i: 0 }
+    }
+    pub fn is_empty(&self) -> bool {
+        self.i >= self.d.len()
+    }
+    pub fn u8(&mut self) -> u8 {
+        let v = self.d.get(self.i).copied().unwrap_or(0);
+        self.i += 1;
+        v
+    }
+    pub fn u16(&mut self) -> u16 {
+        u16::from_le_bytes([self.u8(), self.u8()])
+    }
+    pub fn u32(&mut self) -> u32 {
+        u32::from_le_bytes([self.u8(), self.u8(), self.u8(), self.u8()])
+    }
+    pub fn u64(&mut self) -> u64 {
+        (self.u32() as u64) | ((self.u32() as u64) << 32)
+    }
+    pub fn bool(&mut self) -> bool {
+        self.u8() & 1 == 1
+    }
+    /// a value in 0..n (n >= 1); one byte for n <= 256
+    pub fn below(&mut self, n: usize) -> usize {
+        if n <= 1 {
+            0
+        } else if n <= 256 {
+            self.u8() as usize % n
+        } else {
+            self.u32() as usize % n
+        }
+    }
+    pub fn pick<T: Copy>(&mut self, xs: &[T]) -> T {
+        xs[self.below(xs.len())]
+    }
+    /// the next `n` bytes (fewer at the end of the input)
+    pub fn take(&mut self, n: usize) -> &'a [u8] {
+        let a = self.i.min(self.d.len());
+        let b = (a + n).min(self.d.len());
+        self.i = b;
+        &self.d[a..b]
+    }
+    /// everything that is left
+    pub fn rest(&mut self) -> &'a [u8] {
+        self.take(usize::MAX / 2)
+    }
+    /// the rest as text: valid UTF-8 is taken as is, anything else lossily
+    pub fn rest_text(&mut self) -> String {
+        String::from_utf8_lossy(self.rest()).into_owned()
+    }
+}
+
+fn bare_ctx<P: Property>(open_sigs: HashSet<String>) -> Ctx<P> {
+    Ctx::<P> {
+        tier: Tier::Thorough,
+        seed: 0,
+        worker: 0,
+        nworkers: 1,
+        res: WorkerResult::default(),
+        hashes: HashSet::new(),
+        open_sigs,
+        samples: BTreeMap::new(),
+        buckets: BTreeMap::new(),
+        trace: None,
+        survey: None,
+        only: None,
+        max_violations: 1,
+        _p: PhantomData,
+    }
+}
+
+/// Statistics a fuzz target accumulates in-process (written by `fuzz_stats_flush`).
+#[derive(Default)]
+struct FuzzStats {
+    execs: u64,
+    undecodable: u64,
+    evaluated: u64,
+    nontrivial: u64,
+    excluded_known: u64,
+    discards: u64,
+    per_sub: BTreeMap<String, u64>,
+    samples: BTreeMap<String, Value>,
+    hashes: HashSet<u64>,
+}
+struct FuzzState {
+    sigs: HashSet<String>,
+    stats: FuzzStats,
+}
+thread_local! {
+    static FUZZ_STATE: RefCell<Option<FuzzState>> = const { RefCell::new(None) };
+}
+
+/// One libFuzzer execution for property `P`: the bytes are decoded into a case by the
+/// property's own decoder and the case goes through the same pipeline as in the random tiers
+/// (known-finding signatures, oracle, property-provided shrinking, replay file). A violation
+/// prints the VIOLATION line and aborts so that libFuzzer keeps the input as a crash artifact.
+pub fn fuzz_one<P: Property>(data: &[u8]) {
+    FUZZ_STATE.with(|st| {
+        let mut st = st.borrow_mut();
+        if st.is_none() {
+            install_panic_hook();
+            QUIET.with(|q| *q.borrow_mut() = true);
+            let sigs: HashSet<String> = load_findings()
+                .into_iter()
+                .filter(|f| f.property == P::ID && f.status == "open")
+                .map(|f| f.signature)
+                .collect();
+            *st = Some(FuzzState { sigs, stats: FuzzStats::default() });
+        }
+        let state = st.as_mut().unwrap();
+        state.stats.execs += 1;
+        let Some((sub, case, nt)) = P::fuzz_decode(data) else {
+            state.stats.undecodable += 1;
+            return;
+        };
+        let mut ctx = bare_ctx::<P>(state.sigs.clone());
+        ctx.case(sub, &case, nt);
+        let fs = &mut state.stats;
+        fs.evaluated += ctx.res.evaluations;
+        fs.excluded_known += ctx.res.excluded_known.values().sum::<u64>();
+        fs.discards += ctx.res.discards.values().sum::<u64>();
+        *fs.per_sub.entry(sub.to_string()).or_insert(0) += 1;
+        if nt && ctx.res.evaluations > 0 {
+            if fs.hashes.len() < MAX_HASHES_PER_WORKER {
+                fs.hashes.insert(debug_hash(&case));
+            }
+            fs.nontrivial = fs.hashes.len() as u64;
+            if fs.execs % 512 == 1 || !fs.samples.contains_key(sub) {
+                fs.samples.insert(sub.to_string(), to_json(&case));
+            }
+        }
+        let bad = !ctx.res.internal_errors.is_empty() || !ctx.res.violations.is_empty();
+        if fs.execs % 2048 == 0 || bad {
+            fuzz_stats_flush::<P>(fs);
+        }
+        if !ctx.res.internal_errors.is_empty() {
+            eprintln!("INTERNAL property={} {}", P::ID, ctx.res.internal_errors[0]);
+            std::process::abort();
+        }
+        if let Some(v) = ctx.res.violations.first() {
+            println!("  {}: {}", v["check"].as_str().unwrap_or(""), v["message"].as_str().unwrap_or(""));
+            println!("VIOLATION property={} replay={}", P::ID, v["replay"].as_str().unwrap_or(""));
+            std::process::abort();
+        }
+    });
+}
+
+/// per-process statistics file `<VCHECK_FUZZ_STATS>/<pid>.json` (summed by tools/fuzz_tier.py)
+fn fuzz_stats_flush<P: Property>(fs: &FuzzStats) {
+    let Ok(dir) = std::env::var("VCHECK_FUZZ_STATS") else { return };
+    let _ = std::fs::create_dir_all(&dir);
+    let v = json!({
+        "property": P::ID, "execs": fs.execs, "undecodable": fs.undecodable, "evaluated": fs.evaluated,
+        "distinct_nontrivial": fs.nontrivial, "excluded_known": fs.excluded_known, "discards": fs.discards,
+        "per_check": fs.per_sub, "samples": fs.samples,
+    });
+    let _ = std::fs::write(Path::new(&dir).join(format!("{}.json", std::process::id())), serde_json::to_vec(&v).unwrap_or_default());
+    // hashes of the distinct non-trivial cases, so that the driver can count them across processes
+    let mut hb = Vec::with_capacity(fs.hashes.len() * 8);
+    for h in &fs.hashes {
+        hb.extend_from_slice(&h.to_le_bytes());
+    }
+    let _ = std::fs::write(Path::new(&dir).join(format!("{}.hashes", std::process::id())), hb);
+}
+
+/// `fuzz-case <input file> <out.json>`: decode a libFuzzer input into its case and write it as
+/// an ordinary replay file (no oracle involved), so that crash / timeout artifacts can be judged
+/// by `replay` in the release build.
+fn fuzz_case<P: Property>(input: &Path, out: &Path) -> i32 {
+    let Ok(data) = std::fs::read(input) else {
+        eprintln!("cannot read {}", input.display());
+        return 2;
+    };
+    match P::fuzz_decode(&data) {
+        Some((sub, case, _)) => {
+            let v = json!({"property": P::ID, "check": sub, "tier": "thorough", "seed": 0, "case": to_json(&case), "verdict": "decoded from a libFuzzer input"});
+            match std::fs::write(out, serde_json::to_string_pretty(&v).unwrap_or_default()) {
+                Ok(()) => 0,
+                Err(e) => {
+                    eprintln!("cannot write {}: {e}", out.display());
+                    2
+                }
+            }
+        }
+        None => {
+            eprintln!("the input does not decode to a case");
+            2
+        }
+    }
+}
+
 pub fn main<P: Property>() -> ! {
     install_panic_hook();
     let args: Vec<String> = std::env::args().collect();
@@ -627,6 +835,10 @@ pub fn main<P: Property>() -> ! {
             worker::<P>(tier, idx, seed, &out)
         }
         Some("replay") => replay::<P>(Path::new(&args[2])),
+        Some("fuzz-case") => big_stack({
+            let (a, b) = (PathBuf::from(&args[2]), PathBuf::from(&args[3]));
+            move || fuzz_case::<P>(&a, &b)
+        }),
         _ => {
             eprintln!("usage: {} run <quick|thorough> | replay <file>", args[0]);
             2
